@@ -22,7 +22,8 @@ def handlers : List (String × (List String → Option String)) :=
     ("par-eval", Params.handleEval), ("prog-cov", Params.handleProgCov), ("par-order", Params.handleOrder),
     ("c09-gate", Scenario.handleGate), ("c09-evalone", Scenario.handleEvalOne), ("c09-scen", Scenario.handleScen),
     ("rules", Rules.handle),
-    ("tdve", Tables.handleTdve), ("yfac", Tables.YF.handle), ("cache", Protocol.Cache.handle) ]
+    ("tdve", Tables.handleTdve), ("yfac", Tables.YF.handle), ("cache", Protocol.Cache.handle),
+    ("csim", Closed.handleSim), ("csimref", Closed.handleSimRef), ("cwf", Closed.handleWf), ("cpars", Closed.handleParsRef) ]
 
 /-- One request per line: `<kind> <args…>`; one canonical reply per line. -/
 def dispatch (line : String) : String :=
